@@ -72,6 +72,18 @@ pub trait Api1 {
 	async fn raw_kw(&self, r#type: String, r#ref: Option<u64>) -> RpcResult<Vec<Value>>;
 	#[method(name = "raw_pos")]
 	fn raw_pos(&self, r#type: u64, r#fn: Option<String>) -> RpcResult<Vec<Value>>;
+	// `with_extensions` variants (the server method additionally receives the connection's Extensions):
+	// sync / async methods and subscriptions, with and without a notification-name override
+	#[method(name = "ext_async", with_extensions)]
+	async fn ext_async(&self, a: u64, b: Option<String>) -> RpcResult<Vec<Value>>;
+	#[method(name = "ext_sync", with_extensions, param_kind = map)]
+	fn ext_sync(&self, a: u64, b: Option<String>) -> RpcResult<Vec<Value>>;
+	#[subscription(name = "subx" => "subxNotif", unsubscribe = "unsubx", item = Vec<Value>, with_extensions)]
+	async fn subx(&self, a: u64) -> SubscriptionResult;
+	#[subscription(name = "suby", unsubscribe = "unsuby", item = Vec<Value>, with_extensions, param_kind = map)]
+	async fn suby(&self, a: u64, b: Option<String>) -> SubscriptionResult;
+	#[subscription(name = "subsync" => "subsyncNotif", unsubscribe = "unsubsync", item = Vec<Value>, with_extensions)]
+	fn subsync(&self, a: u64) -> SubscriptionResult;
 	// a method that answers with an error object built from its arguments: the client must receive exactly it
 	#[method(name = "fail_with")]
 	async fn fail_with(&self, code: i32, msg: String, data: Option<P>) -> RpcResult<Vec<Value>>;
@@ -162,6 +174,44 @@ impl Api1Server for Impl {
 		self.0.lock().unwrap().push(("raw_kw".into(), args.clone()));
 		Ok(ret(&args))
 	}
+	async fn ext_async(&self, _ext: &jsonrpsee::Extensions, a: u64, b: Option<String>) -> RpcResult<Vec<Value>> {
+		let args = vec![js(&a), jo(&b)];
+		self.0.lock().unwrap().push(("ext_async".into(), args.clone()));
+		Ok(ret(&args))
+	}
+	fn ext_sync(&self, _ext: &jsonrpsee::Extensions, a: u64, b: Option<String>) -> RpcResult<Vec<Value>> {
+		let args = vec![js(&a), jo(&b)];
+		self.0.lock().unwrap().push(("ext_sync".into(), args.clone()));
+		Ok(ret(&args))
+	}
+	async fn subx(&self, pending: PendingSubscriptionSink, _ext: &jsonrpsee::Extensions, a: u64) -> SubscriptionResult {
+		let args = vec![js(&a)];
+		self.0.lock().unwrap().push(("subx".into(), args.clone()));
+		let sink = pending.accept().await?;
+		sink.send(SubscriptionMessage::from(serde_json::value::to_raw_value(&ret(&args)).unwrap())).await?;
+		// stay open until the client unsubscribes
+		sink.closed().await;
+		Ok(())
+	}
+	async fn suby(&self, pending: PendingSubscriptionSink, _ext: &jsonrpsee::Extensions, a: u64, b: Option<String>) -> SubscriptionResult {
+		let args = vec![js(&a), jo(&b)];
+		self.0.lock().unwrap().push(("suby".into(), args.clone()));
+		let sink = pending.accept().await?;
+		sink.send(SubscriptionMessage::from(serde_json::value::to_raw_value(&ret(&args)).unwrap())).await?;
+		Ok(())
+	}
+	fn subsync(&self, pending: PendingSubscriptionSink, _ext: &jsonrpsee::Extensions, a: u64) -> SubscriptionResult {
+		let args = vec![js(&a)];
+		self.0.lock().unwrap().push(("subsync".into(), args.clone()));
+		let r = ret(&args);
+		tokio::spawn(async move {
+			if let Ok(sink) = pending.accept().await {
+				let _ = sink.send(SubscriptionMessage::from(serde_json::value::to_raw_value(&r).unwrap())).await;
+				sink.closed().await;
+			}
+		});
+		Ok(())
+	}
 	async fn fail_with(&self, code: i32, msg: String, data: Option<P>) -> RpcResult<Vec<Value>> {
 		let args = vec![js(&code), js(&msg), jo(&data)];
 		self.0.lock().unwrap().push(("fail_with".into(), args.clone()));
@@ -233,6 +283,8 @@ fn items() -> Vec<ND> {
 		ND { key: "named", ns, is_sub: false, name: "named", aliases: &[], unsub: "", unsub_aliases: &[] },
 		ND { key: "aliased", ns, is_sub: false, name: "aliased", aliases: &["ns.alias1", "other_alias"], unsub: "", unsub_aliases: &[] },
 		ND { key: "sub", ns, is_sub: true, name: "sub", aliases: &[], unsub: "unsub", unsub_aliases: &[] },
+		ND { key: "subx", ns, is_sub: true, name: "subx", aliases: &[], unsub: "unsubx", unsub_aliases: &[] },
+		ND { key: "subsync", ns, is_sub: true, name: "subsync", aliases: &[], unsub: "unsubsync", unsub_aliases: &[] },
 		ND { key: "suba", ns, is_sub: true, name: "suba", aliases: &["ns.suba_alias", "bare_suba"], unsub: "unsuba", unsub_aliases: &["ns.unsuba_alias", "bare_unsuba"] },
 	]
 }
@@ -287,6 +339,11 @@ fn methods() -> Vec<MD> {
 		MD { key: "subm", rpc_name: "ns.subm", aliases: &[], map: true, params: vec![pd("first", false, 2), pd("second_arg", true, 1)] },
 		MD { key: "raw_kw", rpc_name: "ns.raw_kw", aliases: &[], map: true, params: vec![pd(RAW_TYPE, false, 2), pd(RAW_REF, true, 1)] },
 		MD { key: "raw_pos", rpc_name: "ns.raw_pos", aliases: &[], map: false, params: vec![pd(RAW_TYPE, false, 1), pd("r#fn", true, 2)] },
+		MD { key: "ext_async", rpc_name: "ns.ext_async", aliases: &[], map: false, params: vec![pd("a", false, 1), pd("b", true, 2)] },
+		MD { key: "ext_sync", rpc_name: "ns.ext_sync", aliases: &[], map: true, params: vec![pd("a", false, 1), pd("b", true, 2)] },
+		MD { key: "subx", rpc_name: "ns.subx", aliases: &[], map: false, params: vec![pd("a", false, 1)] },
+		MD { key: "suby", rpc_name: "ns.suby", aliases: &[], map: true, params: vec![pd("a", false, 1), pd("b", true, 2)] },
+		MD { key: "subsync", rpc_name: "ns.subsync", aliases: &[], map: false, params: vec![pd("a", false, 1)] },
 		MD { key: "fail_with", rpc_name: "ns.fail_with", aliases: &[], map: false, params: vec![pd("code", false, 7), pd("msg", false, 2), pd("data", true, 6)] },
 		MD { key: "opt_paths", rpc_name: "ns.opt_paths", aliases: &[], map: false, params: vec![pd("a", false, 1), pd("b", true, 1), pd("c", true, 2), pd("d", true, 3)] },
 		MD { key: "opt_paths_named", rpc_name: "ns.opt_paths_named", aliases: &[], map: true, params: vec![pd("a", false, 1), pd("b", true, 1), pd("c", true, 2)] },
@@ -481,6 +538,20 @@ async fn run(lines: Vec<String>, out: &mut Out) {
 						Err(e) => Err(e.to_string()),
 					},
 					"raw_kw" => Api1Client::raw_kw(&client, a!(0, String), o!(1, u64)).await.map_err(|e| e.to_string()),
+					"ext_async" => Api1Client::ext_async(&client, a!(0, u64), o!(1, String)).await.map_err(|e| e.to_string()),
+					"ext_sync" => Api1Client::ext_sync(&client, a!(0, u64), o!(1, String)).await.map_err(|e| e.to_string()),
+					"subx" => match Api1Client::subx(&client, a!(0, u64)).await {
+						Ok(mut s) => s.next().await.map(|r| r.map_err(|e| e.to_string())).unwrap_or(Err("stream ended".into())),
+						Err(e) => Err(e.to_string()),
+					},
+					"suby" => match Api1Client::suby(&client, a!(0, u64), o!(1, String)).await {
+						Ok(mut s) => s.next().await.map(|r| r.map_err(|e| e.to_string())).unwrap_or(Err("stream ended".into())),
+						Err(e) => Err(e.to_string()),
+					},
+					"subsync" => match Api1Client::subsync(&client, a!(0, u64)).await {
+						Ok(mut s) => s.next().await.map(|r| r.map_err(|e| e.to_string())).unwrap_or(Err("stream ended".into())),
+						Err(e) => Err(e.to_string()),
+					},
 					"fail_with" => match Api1Client::fail_with(&client, a!(0, i32), a!(1, String), o!(2, P)).await {
 						Ok(_) => Err("fail_with returned Ok".to_string()),
 						Err(jsonrpsee::core::client::Error::Call(e)) => Err(format!("CALL:{}:{}:{}", e.code(), hexs(e.message()), e.data().map(|d| hexs(d.get())).unwrap_or("none".into()))),
